@@ -17,8 +17,10 @@ def seeds_differ(strategy: str, plugins: bool, split: bool, n_seeds: int):
         schema = [((("sub/" if i % 3 == 0 else "") + f"p{(i * 7) % 23:02d}.graphql"), part + "\n") for i, part in enumerate(parts)]
     else:
         schema = H.SDL2
-    if strategy == "client":
+    if strategy in ("client", "client_custom"):
         cfg = {"include_comments": "none", "include_all_inputs": False, "include_all_enums": False, "plugins": H.PLUGINS if plugins else []}
+        if strategy == "client_custom":
+            cfg["enable_custom_operations"] = True
         job = {"schema": schema, "queries": H.Q2, "config": cfg}
     else:
         job = {"schema": schema, "strategy": "graphqlschema", "config": {"target_file_path": "out_schema.py" if strategy == "schema_py" else "out_schema.graphql"}}
@@ -52,7 +54,7 @@ def run(rep, tier):
     from harness import C10_order as H
 
     parts = xh.write_module("hC10_parts", H.parts_source())
-    names = ["client_plain", "client_plugins"] + (["schema_py", "schema_graphql"])
+    names = ["client_plain", "client_plugins", "client_custom"] + (["schema_py", "schema_graphql"])
     targets = [f"{parts}.check_fragorder_{a}{b}{c}" for a in "01" for b in "01" for c in "01"] + [f"{MOD}.twin_fragments_order"] + [f"{parts}.check_{n}_s{s}" for n in names for s in range(4)]
     t = 600 if tier == "quick" else 2400
     nb = "3" if tier == "quick" else "4"
@@ -89,7 +91,7 @@ def run(rep, tier):
                 strategy, plugins, split = "client", False, False
             else:
                 base = fn.rsplit("_s", 1)[0]
-                strategy = {"check_client_plain": "client", "check_client_plugins": "client", "check_schema_py": "schema_py", "check_schema_graphql": "schema_graphql"}[base]
+                strategy = {"check_client_plain": "client", "check_client_plugins": "client", "check_client_custom": "client_custom", "check_schema_py": "schema_py", "check_schema_graphql": "schema_graphql"}[base]
                 plugins = base == "check_client_plugins"
                 m = re.search(r"\(([^)]*)\)", r.call)
                 args = [a.strip() for a in m.group(1).split(",")]
